@@ -125,11 +125,14 @@ static void pairs_zone(ZoneRef z, bool checkShadow) {
     std::string r2 = answer(tz, ops[o2], g_args[b]);
     STEP("zone=%s %s(%s); %s(%s); %s(%s) [repeat]", zoneName(z), kOpNames[ops[o1]], g_argNames[a].c_str(), kOpNames[ops[o2]], g_argNames[b].c_str(), kOpNames[ops[o2]], g_argNames[b].c_str());
     std::string r3 = answer(tz, ops[o2], g_args[b]);
+    // ... and back to the first question (a cache emptied or re-keyed by b must not poison a)
+    STEP("zone=%s %s(%s); %s(%s) x2; %s(%s) [back]", zoneName(z), kOpNames[ops[o1]], g_argNames[a].c_str(), kOpNames[ops[o2]], g_argNames[b].c_str(), kOpNames[ops[o1]], g_argNames[a].c_str());
+    std::string r4 = answer(tz, ops[o1], g_args[a]);
     CNT.add("hist.pair_histories");
     const std::string& w1 = sh[o1 * na + a]; const std::string& w2 = sh[o2 * na + b];
-    if (checkShadow && (r1 != w1 || r2 != w2 || r3 != w2)) {
-      std::string h = std::string(kOpNames[ops[o1]]) + "(" + g_argNames[a] + "); " + kOpNames[ops[o2]] + "(" + g_argNames[b] + "); repeat";
-      report(PROP + ":answer-depends-on-history", "answer differs from a freshly constructed time zone asked only this question", z, h, r1 + " | " + r2 + " | " + r3, w1 + " | " + w2 + " | " + w2);
+    if (checkShadow && (r1 != w1 || r2 != w2 || r3 != w2 || r4 != w1)) {
+      std::string h = std::string(kOpNames[ops[o1]]) + "(" + g_argNames[a] + "); " + kOpNames[ops[o2]] + "(" + g_argNames[b] + "); repeat; " + kOpNames[ops[o1]] + "(" + g_argNames[a] + ")";
+      report(PROP + ":answer-depends-on-history", "answer differs from a freshly constructed time zone asked only this question", z, h, r1 + " | " + r2 + " | " + r3 + " | " + r4, w1 + " | " + w2 + " | " + w2 + " | " + w1);
     }
   }
   delete xp; delete bp;
